@@ -18,6 +18,7 @@ typedef struct {
 
 static PyObject *all_primitives[_CFFI__NUM_PRIM];
 static CTypeDescrObject *g_ct_voidp, *g_ct_chararray, *g_ct_int, *g_file_struct;
+static CTypeDescrObject *g_ct_double;
 
 static PyObject *build_primitive_type(int num);   /* forward */
 
@@ -60,6 +61,10 @@ static int init_global_types_dict(PyObject *ffi_type_dict)
     if (g_ct_int == NULL)
         return -1;
 
+    g_ct_double = (CTypeDescrObject *)get_primitive_type(_CFFI_PRIM_DOUBLE);
+    if (g_ct_double == NULL)
+        return -1;
+
     ct2 = new_struct_or_union_type("FILE",
                                    CT_STRUCT | CT_IS_FILE); // 'FILE'
     if (ct2 == NULL)
@@ -90,6 +95,11 @@ static int init_global_types_dict(PyObject *ffi_type_dict)
 static CTypeDescrObject *_get_ct_int(void)
 {
     return g_ct_int;
+}
+
+static CTypeDescrObject *_get_ct_double(void)
+{
+    return g_ct_double;
 }
 
 static void free_builder_c(builder_c_t *builder, int ctx_is_static)
